@@ -409,10 +409,19 @@ def render_tables() -> dict[str, bool]:
 			raise TranslateError('ErrorRender.__build_quotation: an early return is not `return []`')
 	base = ['len(self.e.args) == 0 or not isinstance(self.e.args[0], Node)', 'not os.path.exists(filepath)']
 	guard = "node.source_map['begin'][0] < 1 or node.source_map['begin'][1] < 1"
+	# proposed/C07-quotation-stale-line.diff: no quotation for a node whose begin line is beyond what the file holds now
+	line_guard = 'not self.__has_line(filepath, node)'
 	if tests == base:
-		out = {'quotationSpanGuard': False}
+		out = {'quotationSpanGuard': False, 'quotationLineGuard': False}
 	elif tests == [*base, guard]:
-		out = {'quotationSpanGuard': True}
+		out = {'quotationSpanGuard': True, 'quotationLineGuard': False}
+	elif tests == [*base, guard, line_guard]:
+		hl = _find_func(tree, 'ErrorRender', '__has_line')
+		hb = ' ; '.join(ast.unparse(s) for s in hl.body if not isinstance(s, ast.Expr)).replace('\n', ' ')
+		want = "with open(filepath, mode='rb') as f: return node.source_map['begin'][0] <= len(f.readlines())"
+		if ' '.join(hb.split()) != want:
+			raise TranslateError(f'ErrorRender.__has_line: unrecognised body: {hb}')
+		out = {'quotationSpanGuard': True, 'quotationLineGuard': True}
 	else:
 		raise TranslateError(f'ErrorRender.__build_quotation: unrecognised early returns {tests}')
 	# __build_message: pinned = one join over `f'"{arg}"' if isinstance(arg, str) else str(arg)`;
@@ -705,6 +714,8 @@ def render(errs: list[tuple[str, str, bool]], bis: list[tuple[str, str | None]],
 	L.append('')
 	L.append('/-- ErrorRender.__build_quotation returns [] for a node without a position (begin line or column < 1) -/')
 	L.append(f"def quotationSpanGuard : Bool := {'true' if flags['quotationSpanGuard'] else 'false'}")
+	L.append('/-- ErrorRender.__build_quotation returns [] for a node whose begin line is beyond the lines the file holds now -/')
+	L.append(f"def quotationLineGuard : Bool := {'true' if flags['quotationLineGuard'] else 'false'}")
 	L.append('')
 	L.append('/-- ErrorRender.__build_message shows `repr(arg)` when `str(arg)` raises -/')
 	L.append(f"def messageStrFallback : Bool := {'true' if flags['messageStrFallback'] else 'false'}")
@@ -844,6 +855,7 @@ def generate() -> list[dict[str, Any]]:
 		'source_completes_newline': flags['sourceCompletesNewline'],
 		'source_completion_skips_empty': flags['sourceCompletionSkipsEmpty'],
 		'quotation_span_guard': flags['quotationSpanGuard'],
+		'quotation_line_guard': flags['quotationLineGuard'],
 		'message_str_fallback': flags['messageStrFallback'],
 		'interactive_quit_test': req['interactiveQuitTest'],
 		'changed': changed,
